@@ -210,6 +210,16 @@ impl Prop for C14 {
               match s.eval(&src) { Ev::Ok(CVal::S(_, Sc::B(b))) => { let want = ia.contains(&id) != neg; if b != want { return Outcome::violated("membership-wrong", format!("{} with a = {} gave {} expected {}", src, va.show(), b, want)); } n += 1; } other => { if a.is_empty() { continue; } return Outcome::violated("error-instead-of-value", format!("{} with a = {} -> {}", src, va.show(), other.show())); } }
             }
           }
+          // set/insert and set/remove are operations too: whatever they return must be a set of distinct elements of one kind whose
+          // reported size is its number of elements (what the result contains is not stated by the property and is not judged)
+          for (sp, id) in universe(k) {
+            for f in ["set/insert", "set/remove"] {
+              let forms = case.input["forms"].as_str().unwrap_or("lv");
+              let el = if forms.starts_with('v') { format!("e{}", id) } else { sp.to_string() };
+              let src = format!("{}(a, {})", f, el);
+              if let Ev::Ok(v) = s.eval(&src) { if let Err((c, d)) = invariants(&v) { return Outcome::violated(&c, format!("{} with a = {}: {}", src, va.show(), d)); } n += 1; }
+            }
+          }
           return if n > 0 && !a.is_empty() { Outcome::held() } else { Outcome::trivial() };
         }
         let b = getv("b");
